@@ -212,6 +212,39 @@ def lexer_census(root):
     return files
 
 
+def fb_rule(chk, db):
+    """FB: library-local constant-evaluation helpers of exactly specified functions, evaluated over the finite floating-point
+    class domain of rules/floatdom.py against the function's closed form."""
+    from ..rules import floatdom as FD
+    n = 0
+    for f in db.funcs:
+        if not f["file"].startswith("_cmath/") or f.get("kind") != "function" or f.get("body") is None:
+            continue
+        if not f["n"].endswith("_fallback"):
+            continue
+        ident = f["n"][:-len("_fallback")]
+        if ident not in EXACT:
+            continue
+        n += 1
+        construct = astx.sig(f)
+        chk.instance("FB")
+        helpers = dict((g["n"], g) for g in db.funcs if g["file"].startswith("_cmath/") and g["n"].endswith("_fallback") and g.get("body"))
+        r = FD.check_helper(f, ident, int_return=ident in ("lrint", "llrint", "lround", "llround"), helpers=helpers)
+        chk.obligation("FB", construct, True if r[0] == "ok" else (False if r[0] == "bad" else None), evaluations=r[1] if r[0] == "ok" else 1)
+        if r[0] == "bad":
+            args, got, want = r[1]
+            chk.violation("FB", construct, "helper-differs", "%s: in constant evaluation %s(%s) is computed by this helper as %r; %s is exactly %r "
+                          "(the run-time path uses the builtin)" % (astx.loc(f), ident, ", ".join(repr(a) for a in args), got, ident, want),
+                          {"where": astx.loc(f), "args": [repr(a) for a in args]})
+        elif r[0] == "unknown":
+            chk.unknown_instance("FB", construct, r[1])
+    chk.extra["fallback_helpers_evaluated"] = n
+
+
+META_EXTRA = 'FB (library-local constant-evaluation helpers of exactly specified functions, evaluated over a finite floating-point class domain against the closed form).'
+META = (META[0] + " " + META_EXTRA, META[1])
+
+
 def run(chk, tier):
     db = D.load("plain")
     census = []
@@ -334,6 +367,7 @@ def run(chk, tier):
         chk.analysis_broken("DISPATCH: only %d functions with compiler builtins recognised (floor %d)" % (n_dual, FLOOR))
     if n2 < 40:
         chk.analysis_broken("D2: only %d cmath overloads recognised (floor 40)" % n2)
+    fb_rule(chk, db)
     chk.assumptions += [
         "a function without a mode switch executes the same abstract-machine code when constant-evaluated and at run time "
         "(correct compiler assumed)",
